@@ -40,15 +40,21 @@ def check(ctx):
         except Exception:
             continue
         if op == "compose":
-            okind, v, calls = pp.observe(lambda: k1.compose_tactics(k2, None, simplify, None))
-            exprs.append(f"cc_compose {cf.q(TAU)} {record.coq_table(calls)} {pc.cfields(c1)} {pc.cfields(c2)} None "
+            # sometimes keep connecting variables (outputs of either operand read by the other) as outputs of the result
+            conn_vars = [x for x in c1["o"] if x in c2["i"]] + [x for x in c2["o"] if x in c1["i"]]
+            keep_arg = None
+            if conn_vars and rng.random() < 0.4:
+                keep_arg = [x for x in conn_vars if rng.random() < 0.7] or conn_vars[:1]
+            okind, v, calls = pp.observe(lambda: k1.compose_tactics(k2, keep_arg, simplify, None))
+            exprs.append(f"cc_compose {cf.q(TAU)} {record.coq_table(calls)} {pc.cfields(c1)} {pc.cfields(c2)} {cf.opt(keep_arg, cf.svars)} "
                          f"{cf.boolean(simplify)} None {pc.exp_pair(okind, v)}" if pc.exact_safe_pair(c1, c2) else "true")
             res = cf.contract_of(v[0]) if okind == "ok" else None
         else:
             okind, v, calls = pp.observe(lambda: k1.merge(k2))
             exprs.append(f"cc_merge 0 {record.coq_table(calls)} {pc.cfields(c1)} {pc.cfields(c2)} {pc.exp_one(okind, v)}")
             res = cf.contract_of(v) if okind == "ok" else None
-        payload = {"operation": op, "wiring": wiring, "c1": cf.jsonable_contract(c1), "c2": cf.jsonable_contract(c2), "simplify": simplify}
+        payload = {"operation": op, "wiring": wiring, "c1": cf.jsonable_contract(c1), "c2": cf.jsonable_contract(c2), "simplify": simplify,
+                   "vars_to_keep": keep_arg if op == "compose" else None}
         cases.append((payload, okind, v))
         hist[f"{op}:{wiring}:{'ok' if okind == 'ok' else v[1]}"] = hist.get(f"{op}:{wiring}:{'ok' if okind == 'ok' else v[1]}", 0) + 1
         if res is not None:
